@@ -19,6 +19,7 @@ import TshVerif.Sem2.Cover
 import TshVerif.Sem.CmdFrag
 import TshVerif.Sem.CmdTree
 import TshVerif.Sem.CmdLines
+import TshVerif.Sem.BashFs
 
 open Tsh
 
@@ -311,7 +312,39 @@ def handleStr (spec : Bool) (parts : List String) : String :=
       | _, _ => "unknown"
   | [] => "BADREQ"
 
+/-! request `FS`: a history of file operations run in `Sem/BashFs` (files are numbers; `w:<f>:<hex>` write, `a:<f>:<hex>` append,
+    `r:<f>` read, `e:<f>` exists).  Answer: one item per `r` / `e` in order, then `|`, then the files 0..15 that exist. -/
+def fsStep (st : BashFs.Fs Nat × List String) (op : String) : Option (BashFs.Fs Nat × List String) :=
+  let (fs, acc) := st
+  match op.splitOn ":" with
+  | ["w", f, hex] => do
+      let b ← decStr hex
+      some (BashFs.stepFs fs ⟨f.toNat!, b, false⟩, acc)
+  | ["a", f, hex] => do
+      let b ← decStr hex
+      some (BashFs.stepFs fs ⟨f.toNat!, b, true⟩, acc)
+  | ["r", f] =>
+      some (fs, acc ++ [match BashFs.readSubst fs f.toNat! with
+                        | some b => "r:" ++ hexOfBytes (b.map fun c => UInt8.ofNat c.toNat)
+                        | none => "r:none"])
+  | ["e", f] => some (fs, acc ++ [if BashFs.existsTest fs f.toNat! then "e:1" else "e:0"])
+  | _ => none
+
+def handleFs (ops : List String) : String :=
+  let rec go (st : BashFs.Fs Nat × List String) : List String → Option (BashFs.Fs Nat × List String)
+    | [] => some st
+    | o :: os => match fsStep st o with
+        | some st' => go st' os
+        | none => none
+  match go (⟨fun _ => none⟩, []) (ops.filter (· != "")) with
+  | none => "BADREQ"
+  | some (fs, acc) =>
+      let files := (List.range 16).filterMap fun f =>
+        (fs.content f).map fun b => s!"f:{f}:" ++ hexOfBytes (b.map fun c => UInt8.ofNat c.toNat)
+      " ".intercalate (acc ++ ["|"] ++ files)
+
 def handle (line : String) : String :=
+  if line.startsWith "FS " then handleFs ((line.drop 3).toString.splitOn " ") else
   if line.startsWith "STRM " then handleStr false ((line.drop 5).toString.splitOn " ") else
   if line.startsWith "STRS " then handleStr true ((line.drop 5).toString.splitOn " ") else
   if line.startsWith "FULLBATCH " then handleFullBatch ((line.drop 10).toString.splitOn " ") else
